@@ -18,11 +18,15 @@ VARIABLE l
 Failing(sch) == sch.end \in {"err", "errdata"}
 \* a sequence of accessor calls: every call the failure cannot reach behaves as in the contiguous run;
 \* the first call that needs a byte beyond k returns the same or an error; later calls are not constrained
+\* a passing failure (transient / eofmore) met between two calls - the call that met it consumed nothing and was repeated
+\* by the harness - leaves no trace at all
+AtCallBoundary(ev) == ev.sch.k = 0 \/ \E j \in 1..Len(ev.cends) : ev.cends[j] = ev.sch.k
 SeqOk(ev) ==
+  IF Passing(ev.sch) /\ AtCallBoundary(ev) THEN ev.scalls = ev.ccalls ELSE
   /\ Len(ev.scalls) = Len(ev.ccalls)
   /\ \A i \in 1..Len(ev.ccalls) :
        LET clear(n) == \A j \in 1..n : ev.cends[j] <= ev.sch.k IN
-       IF ~Failing(ev.sch) \/ clear(i) THEN ev.scalls[i] = ev.ccalls[i]
+       IF ~(Failing(ev.sch) \/ Passing(ev.sch)) \/ clear(i) THEN ev.scalls[i] = ev.ccalls[i]
        ELSE IF clear(i - 1) THEN ev.scalls[i] \in {ev.ccalls[i], "err"}
        ELSE TRUE
 
